@@ -1102,6 +1102,9 @@ class CBEval(AutoEvaluator):
                 argenv[p_] = self.ev(dv)
         env = dict(closure.owner.env) if closure is not None else {}
         env.update(argenv)
+        mod = getattr(fn, "_vmod", None)
+        if mod is not None and self.src is not None and hasattr(self.src, "funcs_consulted") and getattr(fn, "_vqual", None):
+            self.src.funcs_consulted.add(f"{mod.rel}:{fn._vqual}")          # a helper that is followed is part of what the rule read
         sub = CBEval(fn, world=self.w, facts=self.facts, callv=self.callv, inline=self.inline, handler_path=self.handler_path, depth=self.depth + 1,
                      env=env, cond=self.cond, src=self.src, subscript=self.subscript)
         sub.module_consts = self.module_consts
